@@ -151,6 +151,32 @@ def run(ctx: Ctx) -> None:
     ctx.ob("C10.R1", disp, "every parsed message clears the pending ping (any type)", bool(clear_nodes) and gd.exit not in reach, "a message can be dispatched without cancelling the pending ping: a live peer would still be pinged")
     reach = walk(gd, {"pong_armed": True}, classify, start=start, blocked=set(cancel_nodes))
     ctx.ob("C10.R2", disp, "every parsed message cancels an armed pong timer (any type)", bool(cancel_nodes) and gd.exit not in reach, "a live peer could still be declared dead")
+    # the deadline is re-armed only while `_pong_timer is None`: a cancelled handle must therefore be forgotten
+    # in the dispatcher path, or after one answered ping no deadline is ever armed again (silent peer never dropped)
+    def forgets(fn: Func, depth: int = 0) -> bool:
+        """On every normal path from a cancel of the pong handle to fn's exit the attribute is reset to None."""
+        gf = cfg_of(ctx, fn)
+        cn = [n for n in gf.reachable() if any(isinstance(c.func, ast.Attribute) and c.func.attr == "cancel" and "_pong_timer" in norm(c.func.value) for c in node_calls(n))]
+        rs = {n for n in gf.reachable() if n.kind == "stmt" and isinstance(n.ast, ast.Assign) and any(isinstance(t, ast.Attribute) and t.attr == "_pong_timer" for t in n.ast.targets) and is_none(n.ast.value)}
+        for c0 in cn:
+            if gf.exit in walk(gf, {}, lambda n: None, start=c0, blocked=rs):
+                return False
+        return bool(cn)
+
+    unforgotten = []
+    for n in cancel_nodes:
+        for c in node_calls(n):
+            direct = isinstance(c.func, ast.Attribute) and c.func.attr == "cancel" and "_pong_timer" in norm(c.func.value)
+            callee_ok = [x for x in res.callees(disp, c).funcs if x in cancel_fn]
+            if direct and not forgets(disp):
+                unforgotten.append(norm(c))
+            for x in callee_ok:
+                if not forgets(x):
+                    # the caller may still forget it itself right after the call
+                    rs = {m for m in gd.reachable() if m.kind == "stmt" and isinstance(m.ast, ast.Assign) and any(isinstance(t, ast.Attribute) and t.attr == "_pong_timer" for t in m.ast.targets) and is_none(m.ast.value)}
+                    if gd.exit in walk(gd, {}, lambda q: None, start=n, blocked=rs):
+                        unforgotten.append(f"{norm(c)} -> {x.qualname}")
+    ctx.ob("C10.R2", disp, "a cancelled pong deadline is forgotten (reset to None) so that the next ping arms a new one", not unforgotten, f"{unforgotten}: the handle stays non-None after the first answered ping; the `is None` arm guard never fires again and a peer that later goes silent is never dropped")
     # ... and they happen before the subscribers run (a subscriber may raise)
     look = [n for n in gd.reachable() if n.ast is not None and n.kind in ("cond", "stmt") and any(isinstance(x, ast.Attribute) and x.attr == roles.handler_table for x in walk_own(n.ast))]
     for ln in look:
